@@ -146,6 +146,147 @@ theorem pr_zero (h0 h1 g0 g1 x : List R) (hL : 2 ≤ h0.length) (hh1 : h1.length
     have : ¬ ((t:Int) - i = 0) := by omega
     rw [if_neg this]; ring
 
+
+/-- **Perfect reconstruction for an arbitrary signal extension.**  Let `e : ℤ → R` be *any* extension of a
+signal of `N` samples (zero, half-sample symmetric, whole-sample symmetric, periodic, constant, … — nothing
+is assumed about `e` outside `[0, N)`), analysed by `lo_k = Σ_j h0_j·e(2k+1−j)`, `hi_k = Σ_j h1_j·e(2k+1−j)`
+for `k < K = ⌊(N+L−1)/2⌋`.  Then PyWavelets' synthesis formula returns `e(t)` at every `t < N`, for every
+bank satisfying `PRBank`.  The boundary handling of the analysis therefore never affects reconstruction
+inside the original extent. -/
+theorem pr_any_extension (h0 h1 g0 g1 : List R) (e : Int → R) (N : Nat) (hL : 2 ≤ h0.length)
+    (hh1 : h1.length = h0.length) (hg0 : g0.length = h0.length) (hg1 : g1.length = h0.length)
+    (hpr : PRBank h0 h1 g0 g1) (t : Nat) (ht : t < N) :
+    ∑ k ∈ range ((N + h0.length - 1) / 2),
+      ((∑ j ∈ range h0.length, getN h0 j * e (2*(k:Int) + 1 - (j:Int))) * getZ g0 ((t:Int) + h0.length - 2 - 2*(k:Int))
+       + (∑ j ∈ range h0.length, getN h1 j * e (2*(k:Int) + 1 - (j:Int))) * getZ g1 ((t:Int) + h0.length - 2 - 2*(k:Int)))
+      = e t := by
+  set K := (N + h0.length - 1) / 2 with hK
+  set W : Finset Int := Finset.Ico (2 - (h0.length:Int)) (2*(K:Int)) with hWdef
+  have hwin : ∀ (h : List R), h.length = h0.length → ∀ k ∈ range K,
+      ∑ j ∈ range h0.length, getN h j * e (2*(k:Int) + 1 - (j:Int))
+        = ∑ u ∈ W, e u * getZ h (2*(k:Int) + 1 - u) := by
+    intro h hh k hk
+    have hk' : k < K := by simpa using hk
+    rw [← hh]
+    apply sum_taps_window
+    intro j hj
+    rw [hWdef, Finset.mem_Ico]; omega
+  have step1 : ∀ k ∈ range K,
+      ((∑ j ∈ range h0.length, getN h0 j * e (2*(k:Int) + 1 - (j:Int))) * getZ g0 ((t:Int) + h0.length - 2 - 2*(k:Int))
+       + (∑ j ∈ range h0.length, getN h1 j * e (2*(k:Int) + 1 - (j:Int))) * getZ g1 ((t:Int) + h0.length - 2 - 2*(k:Int)))
+      = ∑ u ∈ W, e u *
+          (getZ h0 (2*(k:Int) + 1 - u) * getZ g0 ((t:Int) + h0.length - 2 - 2*(k:Int))
+           + getZ h1 (2*(k:Int) + 1 - u) * getZ g1 ((t:Int) + h0.length - 2 - 2*(k:Int))) := by
+    intro k hk
+    rw [hwin h0 rfl k hk, hwin h1 hh1 k hk, Finset.sum_mul, Finset.sum_mul, ← Finset.sum_add_distrib]
+    apply Finset.sum_congr rfl; intro u _; ring
+  rw [Finset.sum_congr rfl step1, Finset.sum_comm]
+  have step2 : ∀ u ∈ W,
+      ∑ k ∈ range K, e u *
+          (getZ h0 (2*(k:Int) + 1 - u) * getZ g0 ((t:Int) + h0.length - 2 - 2*(k:Int))
+           + getZ h1 (2*(k:Int) + 1 - u) * getZ g1 ((t:Int) + h0.length - 2 - 2*(k:Int)))
+      = e u * (if ((t:Int) - u) = 0 then 1 else 0) := by
+    intro u _
+    rw [← Finset.mul_sum, Finset.sum_add_distrib]
+    have k0 := kernel_reindex_int h0 g0 N K u t ht hK hL hg0
+    have k1 := kernel_reindex_int h1 g1 N K u t ht (by rw [hh1]) (by omega) (by omega)
+    rw [hh1] at k1
+    rw [k0, k1, ← Finset.sum_add_distrib]
+    congr 1
+    have := prbank_all_lags h0 h1 g0 g1 (by omega) hg0 hg1 hpr (((u+1) % 2).toNat) (by omega) ((t:Int) - u)
+    rw [← this]
+    apply Finset.sum_congr rfl; intro a _
+    have hiff : ((a:Int) % 2 = (u + 1) % 2) ↔ (a % 2 = ((u+1) % 2).toNat) := by omega
+    by_cases hc : (a:Int) % 2 = (u + 1) % 2
+    · rw [if_pos hc, if_pos hc, if_pos (hiff.mp hc)]
+    · rw [if_neg hc, if_neg hc, if_neg (fun h => hc (hiff.mpr h))]; simp
+  rw [Finset.sum_congr rfl step2]
+  have htW : (t:Int) ∈ W := by rw [hWdef, Finset.mem_Ico]; omega
+  rw [Finset.sum_eq_single_of_mem (t:Int) htW]
+  · simp
+  · intro u _ hne
+    have : ¬ ((t:Int) - u = 0) := by omega
+    rw [if_neg this]; ring
+
+/-- every non-periodization extension is the identity inside the signal -/
+theorem ext_inside (m : Mode) (x : List R) (t : Nat) (ht : t < x.length) : Spec.ext m x (t:Int) = getN x t := by
+  have h1 : (0:Int) ≤ t := by omega
+  have h2 : (t:Int) < (x.length:Int) := by omega
+  cases m <;> simp only [Spec.ext] <;> rw [getN_eq_getZ]
+  · rw [symIdx_id _ _ h1 h2]
+  · congr 1
+    unfold reflIdxP
+    have : ¬ ((x.length:Int) ≤ 1) ∨ (x.length:Int) ≤ 1 := by omega
+    rcases this with hc | hc
+    · rw [if_neg hc]
+      have hmod : (t:Int) % (2*(x.length:Int) - 2) = t := Int.emod_eq_of_lt h1 (by omega)
+      show (if (t:Int) % (2*(x.length:Int) - 2) < (x.length:Int) then (t:Int) % (2*(x.length:Int) - 2) else (2*(x.length:Int) - 2) - (t:Int) % (2*(x.length:Int) - 2)) = t
+      rw [hmod, if_pos h2]
+    · rw [if_pos hc]; omega
+  · congr 1
+    unfold perIdx
+    exact Int.emod_eq_of_lt h1 h2
+
+/-- **Perfect reconstruction in every padded mode** (`zero`, `symmetric`, `reflect`, `periodic`): for every
+bank with `PRBank`, every signal and every such mode, `idwt(dwt(x))` returns every sample of the original
+extent — stated on PyWavelets' formulas, which the code is proved to compute in these modes (C01, C10). -/
+theorem pr_padded (m : Mode) (hm : m ≠ .periodization) (h0 h1 g0 g1 x : List R) (hL : 2 ≤ h0.length)
+    (hh1 : h1.length = h0.length) (hg0 : g0.length = h0.length) (hg1 : g1.length = h0.length)
+    (hpr : PRBank h0 h1 g0 g1) (t : Nat) (ht : t < x.length) :
+    getN (Spec.idwt m g0 g1 (Spec.dwt m h0 x) (Spec.dwt m h1 x)) t = getN x t := by
+  set K := dwtCoeffLen x.length h0.length with hK
+  have hKdef : K = (x.length + h0.length - 1) / 2 := rfl
+  have hdwt : ∀ (h : List R), h.length = h0.length →
+      Spec.dwt m h x = tab K fun k => sumN h0.length fun j => getN h j * Spec.ext m x (2*(k:Int) + 1 - j) := by
+    intro h hh
+    cases m <;> first | exact absurd rfl hm | (simp only [Spec.dwt, hh, hK])
+  have hidwt : ∀ (lo hi : List R), Spec.idwt m g0 g1 lo hi =
+      tab (2*lo.length + 2 - g0.length) fun t => sumN lo.length fun k =>
+        getN lo k * getZ g0 ((t:Int) + g0.length - 2 - 2*k) + getN hi k * getZ g1 ((t:Int) + g0.length - 2 - 2*k) := by
+    intro lo hi
+    cases m <;> first | exact absurd rfl hm | rfl
+  rw [hidwt, hdwt h0 rfl, hdwt h1 hh1]
+  simp only [length_tab, hg0]
+  rw [getN_tab]
+  have ht2 : t < 2 * K + 2 - h0.length := by omega
+  simp only [ht2, if_true]
+  rw [sumN_eq]
+  rw [← ext_inside m x t ht, ← pr_any_extension h0 h1 g0 g1 (Spec.ext m x) x.length hL hh1 hg0 hg1 hpr t ht]
+  rw [← hKdef]
+  apply Finset.sum_congr rfl; intro k hk
+  have hk' : k < K := by simpa using hk
+  rw [getN_tab, getN_tab]
+  simp only [hk', if_true, sumN_eq]
+
+/-- **Implementation-level perfect reconstruction** (`zero`, `symmetric`, `periodic`): the model of
+`lowlevel.afb1d` followed by the model of `lowlevel.sfb1d` — the two functions tied to the code by the
+correspondence — never raises and returns every sample of `x`, for every bank with `PRBank` (filters are
+handed to `afb1d` reversed, as `prep_filt_afb1d` does) and every non-empty signal. -/
+theorem impl_pr_padded (m : Mode) (hm : m = .zero ∨ m = .symmetric ∨ m = .periodic) (h0 h1 g0 g1 x : List R)
+    (hL : 2 ≤ h0.length) (hh1 : h1.length = h0.length) (hg0 : g0.length = h0.length)
+    (hg1 : g1.length = h0.length) (hpr : PRBank h0 h1 g0 g1) (hN : 1 ≤ x.length) :
+    ∃ lo hi y, afb1dOne m h0.reverse x = some lo ∧ afb1dOne m h1.reverse x = some hi ∧
+      sfb1dCh m g0 g1 lo hi = some y ∧ ∀ t < x.length, getN y t = getN x t := by
+  have hA : ∀ (h : List R), 2 ≤ h.length → afb1dOne m h.reverse x = some (Spec.dwt m h x) := by
+    intro h hh
+    rcases hm with rfl | rfl | rfl
+    · exact C01.afb1dOne_zero_eq_dwt h x hh hN
+    · exact C01.afb1dOne_symmetric_eq_dwt h x hh hN
+    · exact C01.afb1dOne_periodic_eq_dwt h x hh hN
+  have hmp : m ≠ .periodization := by rcases hm with rfl | rfl | rfl <;> decide
+  have hlen : ∀ (h : List R), h.length = h0.length → (Spec.dwt m h x).length = dwtCoeffLen x.length h0.length := by
+    intro h hh
+    rcases hm with rfl | rfl | rfl <;> simp [Spec.dwt, hh]
+  have hK : dwtCoeffLen x.length h0.length = (x.length + h0.length - 1) / 2 := rfl
+  refine ⟨Spec.dwt m h0 x, Spec.dwt m h1 x, Spec.idwt m g0 g1 (Spec.dwt m h0 x) (Spec.dwt m h1 x),
+    hA h0 hL, hA h1 (by omega), ?_, ?_⟩
+  · apply C10.sfb1dCh_eq_idwt m (by rcases hm with rfl | rfl | rfl <;> simp) g0 g1 _ _ (by omega) (by omega)
+    · rw [hlen h0 rfl, hK]; omega
+    · rw [hlen h0 rfl, hlen h1 hh1]
+    · rw [hlen h0 rfl, hK, hg0]; omega
+  · intro t ht
+    exact pr_padded m hmp h0 h1 g0 g1 x hL hh1 hg0 hg1 hpr t ht
+
 /-- with the un-pad rule this is perfect reconstruction on the original extent, with `N` or `N+1` samples -/
 theorem pr_zero_length (h0 g0 g1 x : List R) (h1 : List R) (hL : 2 ≤ h0.length) (hg0 : g0.length = h0.length)
     (hN : 1 ≤ x.length) :
